@@ -419,6 +419,33 @@ def r5_one_worker(ctx: Context) -> None:
               "self._workers[self._placed_tasks[task]].remove_task", "removal does not address the recorded worker")
 
 
+def r11_resource_identity(ctx: Context, rule: str = "C01.R11") -> None:
+    ctx.rule(rule, "Resource identity, on which every availability sum and fit test rests: `==` holds exactly when the names are equal "
+                   "and (either id is the wildcard `any` or the ids are equal) - decided over all return paths with the guard algebra; a "
+                   "shallow copy keeps the id, so a policy's scratch copy matches the same units")
+    from .c16 import _ret_paths
+    cls = ctx.repo.mod("workload/resource.py").cls("Resource")
+    eq = method(cls, "__eq__")
+    o = eq.args.args[1].arg
+    want = lin.formula(ast.parse(f"self.name == {o}.name and (self.id == 'any' or {o}.id == 'any' or self.id == {o}.id)", mode="eval").body)
+    true_paths = []
+    for conds, ret in _ret_paths(eq):
+        pc = [lin.formula(t) if pol == "T" else lin.f_not(lin.formula(t)) for pol, t in conds]
+        if isinstance(ret, ast.Constant) and isinstance(ret.value, bool):
+            if ret.value:
+                true_paths.append(("and", pc) if pc else ("const", True))
+        else:
+            true_paths.append(("and", pc + [lin.formula(ret)]))
+    got = ("or", true_paths) if true_paths else ("const", False)
+    ctx.check(lin.equivalent(got, want), rule, "Resource.__eq__|same name and (wildcard or same id)", loc(eq), "equivalent",
+              f"Resource.__eq__ is true under `{lin.show(got)[:160]}`: units of another resource (or not all units of this one) are counted "
+              "as available for a request, so fit tests admit more than the worker owns")
+    cp = method(cls, "__copy__")
+    keeps = any(isinstance(a, ast.Assign) and isinstance(a.targets[0], ast.Attribute) and a.targets[0].attr == "_id" and is_self_attr(a.value, "_id") for a in ast.walk(cp))
+    ctx.check(keeps, rule, "Resource.__copy__|keeps the id", loc(cp), "instance._id = self._id",
+              "a copied Resource gets a fresh id: the allocations replayed onto a scratch copy no longer match its inventory")
+
+
 def r7_fit_tests(ctx: Context) -> None:
     ctx.rule("C01.R7", "fit tests compare the request against the *available* quantities: Resources.__gt__, "
                        "get_available_quantity, Worker.can_accomodate_strategy, WorkerPool.can_accomodate_strategy")
@@ -516,6 +543,7 @@ def run(ctx: Context) -> None:
     ctx.isolate(r4_simulator_side)
     ctx.isolate(r5_one_worker)
     ctx.isolate(r7_fit_tests)
+    ctx.isolate(r11_resource_identity)
     ctx.isolate(c04.r2b_rollback_is_exact, rule="C01.R6b")
     ctx.isolate(c04.r3_deallocate, rule="C01.R8")
     ctx.isolate(c04.r4_r5_copies, rule4="C01.R9", rule5="C01.R9b")
